@@ -6,6 +6,8 @@ mod c01;
 mod c02;
 mod c03;
 mod c04;
+mod c11;
+mod c12;
 mod c14;
 mod c15;
 mod c17;
@@ -38,6 +40,9 @@ fn main() {
         std::process::exit(2);
     }
     let id = args[1].clone();
+    if id == "C11-worker" {
+        std::process::exit(c11::worker_main());
+    }
     if id == "C01-worker" {
         runner::install_quiet_panic_hook();
         std::process::exit(c01::worker_main(&args[2..]));
@@ -104,6 +109,9 @@ fn main() {
         "C08" => cval::run_c08(&ctx),
         "C09" => cval::run_c09(&ctx),
         "C10" => cval::run_c10(&ctx),
+        "C11" => c11::run(&ctx),
+        "C12" => c12::run_c12(&ctx),
+        "C13" => c12::run_c13(&ctx),
         "C14" => c14::run(&ctx),
         "C15" => c15::run_c15(&ctx),
         "C16" => c15::run_c16(&ctx),
